@@ -135,9 +135,9 @@ def register(reg):
 
     # ---------------------------------------------------------------- option string parser (string builtins abstract)
     reg.add(Contract(F, 'Slice.__init__', {'self': KRec('Slice'), 'start': KOpt(Int), 'stop': KOpt(Int), 'step': KOpt(Int)},
-                     modifies=[('self._slice', KRec('slice', start=KOpt(Int), stop=KOpt(Int), step=KOpt(Int)))], trusted=True,
+                     modifies=[('self._slice', KRec('slice', start=KOpt(Int), stop=KOpt(Int), step=KOpt(Int)))],
                      ensures=['self._slice.start == start', 'self._slice.stop == stop', 'self._slice.step == step'],
-                     note='Slice.__init__ (type checks through locals()) stores slice(start, stop, step)'), verify=False)
+                     loops=[Loop("for name in ('start', 'stop', 'step')", unroll=True)], crosscheck=False))
     PART = ('(is_none({f}) if (py_strip(split_part(slice_string, {i})) == "None" or py_strip(split_part(slice_string, {i})) == "")'
             ' else ({f} == py_int(py_strip(split_part(slice_string, {i})))))')
     BADPART = ('(py_strip(split_part(slice_string, {i})) != "None" and py_strip(split_part(slice_string, {i})) != ""'
